@@ -186,3 +186,16 @@ impl Drop for Writing {
         })
     }
 }
+
+#[cfg(feature = "verif-hooks")]
+impl State {
+    pub(super) fn verif_dump(&self) -> String {
+        format!(
+            "Cell reading={} writing={} rd={} wr={}",
+            self.is_reading,
+            self.is_writing as u8,
+            self.read_access.verif_dump(),
+            self.write_access.verif_dump()
+        )
+    }
+}
